@@ -7,6 +7,10 @@ pub struct Segment {
     pub fin: bool,
     pub seq: u8,
     pub data: Vec<u8>,
+    /// Some(address): the link frame that carries the segment is addressed to that broadcast address
+    pub bcast: Option<u16>,
+    /// datagram transports: which socket address (peer number) the carrying datagram comes from
+    pub peer: u8,
 }
 
 impl Segment {
@@ -21,6 +25,8 @@ impl Segment {
             fir: h & 0x40 != 0,
             seq: h & 0x3F,
             data: data.to_vec(),
+            bcast: None,
+            peer: 0,
         })
     }
     pub fn payload(&self) -> Vec<u8> {
@@ -47,6 +53,8 @@ pub fn segment(src: u16, fragment: &[u8], start_seq: u8) -> (Vec<Segment>, u8) {
             fin: i + 1 == n,
             seq,
             data: c.to_vec(),
+            bcast: None,
+            peer: 0,
         });
         seq = (seq + 1) & 0x3F;
     }
@@ -57,9 +65,26 @@ pub fn segment(src: u16, fragment: &[u8], start_seq: u8) -> (Vec<Segment>, u8) {
 /// are exactly the contiguous runs that start with FIR, continue with non-FIR segments of the same source with
 /// consecutive sequence numbers (mod 64), end with the first FIN and fit the receive buffer.
 pub fn expected_fragments(segs: &[Segment], rx_buffer: usize) -> Vec<(u16, Vec<u8>)> {
+    expected_fragments_ex(segs, rx_buffer)
+        .into_iter()
+        .map(|(s, _, d)| (s, d))
+        .collect()
+}
+
+/// The same with broadcasts and datagram peers: a segment that arrives by broadcast counts only if it is a whole
+/// fragment (FIR and FIN); without FIR it is as if it had never been sent, with FIR (but without FIN) it ends the
+/// fragment in progress like every FIR does and starts nothing; "same source" means the same link address AND the
+/// same socket address. Returns (source, broadcast address, bytes).
+pub fn expected_fragments_ex(segs: &[Segment], rx_buffer: usize) -> Vec<(u16, Option<u16>, Vec<u8>)> {
+    let segs: Vec<Segment> = segs
+        .iter()
+        .filter(|s| s.bcast.is_none() || s.fir)
+        .cloned()
+        .collect();
+    let segs = &segs[..];
     let mut out = vec![];
     for i in 0..segs.len() {
-        if !segs[i].fir {
+        if !segs[i].fir || (segs[i].bcast.is_some() && !segs[i].fin) {
             continue;
         }
         let mut acc: Vec<u8> = vec![];
@@ -67,7 +92,7 @@ pub fn expected_fragments(segs: &[Segment], rx_buffer: usize) -> Vec<(u16, Vec<u
         loop {
             if k > i {
                 let (p, c) = (&segs[k - 1], &segs[k]);
-                if c.fir || c.src != segs[i].src || c.seq != (p.seq + 1) & 0x3F {
+                if c.fir || c.src != segs[i].src || c.peer != segs[i].peer || c.seq != (p.seq + 1) & 0x3F {
                     break;
                 }
             }
@@ -76,7 +101,7 @@ pub fn expected_fragments(segs: &[Segment], rx_buffer: usize) -> Vec<(u16, Vec<u
                 break;
             }
             if segs[k].fin {
-                out.push((segs[i].src, acc));
+                out.push((segs[i].src, segs[i].bcast, acc));
                 break;
             }
             k += 1;
